@@ -25,6 +25,8 @@ def base_specs():
     specs += [("props.c08", "GenerateTask", (cc,)) for cc in ("DE", "ES", "NL")]
     from props import lookuptasks
     specs += lookuptasks.specs()
+    specs += [("props.c13", "RandomTask", v) for v in (("DE", 1, ""), ("PL", 1, "branch_code"), ("NO", 0, ""), ("GB", 1, ""))]
+    specs += [("props.c11", "DecomposeTask", ("BR",)), ("props.c02", "FromBbanTask", ("MT",))]
     return specs
 
 
